@@ -389,10 +389,7 @@ def explore(rec):
         lambda c: dict(c, kind="runner")), 1500 if quick else 30000)
     rec.hyp("aborted-runs", abort_case_st(), 1500 if quick else 30000)
     from . import c03
-    rec.hyp("autoretry", st.builds(lambda p, n, w: {"kind": "autoretry", "program": c03.strip_skip(p), "attempts": n,
-                                                    "whole_outlines": w},
-                                   c03.act_program(allow_bg_acts=False, with_interrupt=False), st.integers(2, 3),
-                                   st.booleans()), 700 if quick else 15000)
+    rec.hyp("autoretry", c03.autoretry_case(), 700 if quick else 15000)
     rec.hyp("autoretry-outline-rows", autoretry_outline_case(), 400 if quick else 6000)
     rec.hyp("wip-flag", run_case_st(max_features=2, cfg=gen.cfg_st(flags=("wip_flag", "wip_flag", "dry_run"))),
             800 if quick else 15000)
